@@ -16,6 +16,7 @@ import (
 // c10: a second peer sends cancel / update / new-request messages carrying the
 // request IDs of responses the responder serves to the first peer.
 type c10 struct {
+	pops []c10pop
 	c02
 	t      *Scripted
 	script *Script
@@ -43,6 +44,20 @@ func (s *c10) Name() string { return "second-peer-requests" }
 func (s *c10) Build(w *World) {
 	t := w.Tape
 	drawProfile(w)
+	w.OnYieldSite = func(site, detail, node string, obj any) {
+		if site == "taskqueue.afterPop" && node == "" {
+			if id, ok := obj.(graphsync.RequestID); ok && s.req != nil && id == s.req.ID {
+				w.mu.Lock()
+				s.pops = append(s.pops, c10pop{peer: w.Net.Name(peer.ID(detail)), step: w.Step})
+				w.mu.Unlock()
+			}
+		}
+	}
+	// lock-yield build: in a third of the runs (tape digest) a goroutine may be held just before it hands a message
+	// to the manager's event loop (points before the calls of send in responsemanager/client.go)
+	if w.Tape.Digest()%3 == 0 {
+		w.EnableLockYields("responsemanager/client.go")
+	}
 	s.dag = GenDAG(t, GenCfg{MaxBlocks: 3 + t.Draw(14), MaxDepth: 2 + t.Draw(4), BlockPad: []int{0, 0, 40}[t.Draw(3)], Share: []int{0, 100, 300}[t.Draw(3)]})
 	s.sel, s.selDesc = AllSelector(int64(2+t.Draw(8))), "all"
 	s.split = Split{Rq: map[cid.Cid]bool{}, Rs: map[cid.Cid]bool{}}
@@ -273,7 +288,7 @@ func (s *c10) Final(w *World) *Violation {
 		}
 	}
 	if nCancelled > 0 {
-		return &Violation{Property: "C10", Rule: "R2", Signature: "response-cancelled-by-other-peer", Detail: fmt.Sprintf("requestor-cancelled listener fired %d time(s) for the response served to A although A never cancelled", nCancelled)}
+		return &Violation{Property: "C10", Rule: "R2", Signature: "response-cancelled-by-other-peer" + s.staleTaskTag(w), Detail: fmt.Sprintf("requestor-cancelled listener fired %d time(s) for the response served to A although A never cancelled", nCancelled)}
 	}
 	nUpd := 0
 	for _, h := range s.b.Updates {
@@ -320,6 +335,14 @@ func (s *c10) Final(w *World) *Violation {
 					if s.otherPeerResentID() {
 						sig = "other-peer-resent-id-in-use:" + sig
 					}
+					for _, pp := range s.pops {
+						if pp.peer == "T" && pp.step >= t0 && pp.step <= e.Step {
+							// a worker had already taken T's task when T's response was retired, and asked for the
+							// task's data only after the first peer had been given the ID
+							sig += ":task-in-a-workers-hands-when-retired"
+							break
+						}
+					}
 					return &Violation{Property: "C10", Rule: "R1", Signature: sig, Detail: fmt.Sprintf("outgoing block hook called for peer T (block #%d, step %d) although T's request under the ID was retired at step %d and T sent no new one: the traversal runs against the response that holds the ID now", h.Index, h.Step, e.Step)}
 				}
 			}
@@ -361,12 +384,13 @@ func (s *c10) Final(w *World) *Violation {
 			// re-using an ID its sender's own response still holds replaces that table entry
 			v.Signature = "other-peer-resent-id-in-use:" + v.Signature
 		}
+		v.Signature += s.staleTaskTag(w)
 		return v
 	}
 	// (a response paused after the requestor already had everything it needed is
 	// not followed to its end here: the requestor has gone)
 	if !s.paused && (nCompleted != 1 || !st.IsSuccess()) {
-		return &Violation{Property: "C10", Rule: "R2", Signature: "completion-outcome-changed", Detail: fmt.Sprintf("completed listener for A's response fired %d time(s), last status %d", nCompleted, st)}
+		return &Violation{Property: "C10", Rule: "R2", Signature: "completion-outcome-changed" + s.staleTaskTag(w), Detail: fmt.Sprintf("completed listener for A's response fired %d time(s), last status %d", nCompleted, st)}
 	}
 	// R3: the intruder's colliding request never makes the responder talk to A about it
 	out := ResponderOutput(w.Net.WireFor("B", "A"), s.req.ID)
@@ -377,7 +401,41 @@ func (s *c10) Final(w *World) *Violation {
 		}
 	}
 	if !s.paused && terminals != 1 {
-		return &Violation{Property: "C10", Rule: "R3", Signature: "extra-terminal-status-to-first-peer", Detail: fmt.Sprintf("A was sent %d terminal statuses for its request: %v", terminals, out.Statuses)}
+		return &Violation{Property: "C10", Rule: "R3", Signature: "extra-terminal-status-to-first-peer" + s.staleTaskTag(w), Detail: fmt.Sprintf("A was sent %d terminal statuses for its request: %v", terminals, out.Statuses)}
 	}
 	return nil
+}
+
+// c10pop: a worker took a task of the contested request ID for this peer at this step.
+type c10pop struct {
+	peer string
+	step int
+}
+
+// staleTaskTag: input class of a recorded finding - a worker had taken the other peer's task for the contested ID
+// before that peer's response was retired, the first peer was given the ID afterwards, and the run is one in which
+// the worker can be overtaken before it asks for the task's data (call-yield points of responsemanager/client.go).
+func (s *c10) staleTaskTag(w *World) string {
+	if !w.Yields["call:responsemanager/client.go"] {
+		return ""
+	}
+	tRet, aIn := 1<<30, -1
+	for _, l := range [][]RespEvent{s.b.Completed, s.b.Cancelled, s.b.NetErrs} {
+		for _, e := range l {
+			if e.Req == s.req.ID && e.Peer == "T" && e.Step < tRet {
+				tRet = e.Step
+			}
+		}
+	}
+	for _, in := range s.b.Incoming {
+		if in.Req == s.req.ID && in.Peer == "A" && aIn < 0 {
+			aIn = in.Step
+		}
+	}
+	for _, pp := range s.pops {
+		if pp.peer == "T" && pp.step <= tRet && tRet <= aIn {
+			return ":task-in-a-workers-hands-when-retired"
+		}
+	}
+	return ""
 }
